@@ -64,3 +64,16 @@ package goja
 //@ func (*objectGoSlice).swap bounds
 //@   props C13
 //@   requires o != nil && 0 <= i && i < len(*o.data) && 0 <= j && j < len(*o.data)
+
+// Assumed: formatting a number reads its argument only.
+//@ extern strconv.Itoa
+
+// Allocation for a growing wrapper: either the slice asked for, or - when the Go runtime refuses
+// the size - a script-visible RangeError; never a Go runtime panic.
+//@ func allocGoSlice
+//@   props C13
+//@   requires 0 <= size && size <= capacity
+//@   ensures len(n) == size && cap(n) == capacity && newarray(n) [fresh-slice-of-the-size-asked-for]
+//@   ensures forall k int :: 0 <= k && k < size ==> n[k] == nil [zeroed]
+//@   ensures_abrupt specIsScriptError(panicValue) [refused-size-is-a-RangeError]
+//@   assigns nothing
